@@ -10,20 +10,20 @@ META = {
  'C01': dict(files=['C01', 'C01Struct', 'C01King', 'C01NonKing', 'C01Ep', 'PinCheck'], rule="positions from corpus, weighted playouts and synthesized valid set-ups (POS); the 20480-triple legality query on a subsample (LEGAL)"),
  'C02': dict(files=['C02'], rule="every legal move of positions along playouts, make_move_new and make_move into three prefilled boards (MAKE)"),
  'C03': dict(files=['C03', 'C03Step'], rule="positions reached incrementally along playouts with interleaved null moves, compared field by field with the from-scratch spec computation and with the re-parse of their own FEN"),
- 'C04': dict(files=['C04', 'Compose:C04_'], rule="positions with terminal ones over-represented (mates, stalemates, small endgames)"),
- 'C05': dict(files=['C05', 'Compose:C05_'], rule="MAKE lines along 300-ply playouts and complete move trees; Valid / is_sane / monotone counts checked on every successor"),
+ 'C04': dict(files=['C04', 'Compose:C04_'] if not os.environ.get('NO_COMPOSE') else ['C04'], rule="positions with terminal ones over-represented (mates, stalemates, small endgames)"),
+ 'C05': dict(files=['C05', 'Compose:C05_'] if not os.environ.get('NO_COMPOSE') else ['C05'], rule="MAKE lines along 300-ply playouts and complete move trees; Valid / is_sane / monotone counts checked on every successor"),
  'C06': dict(files=['C06', 'C06Std'], rule="POS (fen, reparse), FENP on the harness's standard FEN writer, BFEN on random builder states"),
  'C07': dict(files=['C07', 'C07Full', 'C07Bounds', 'C07BoundsBmi'], rule="FENP on grammar-directed, mutated, truncated and random Unicode text; BLD on random builder states with 2..64 men; BPARSE"),
  'C08': dict(files=['C08'], rule="POS on transposition-rich streams; get_hash compared with the from-scratch hashOf of the position"),
  'C09': dict(files=['C09', 'C09Deps'], partial="the statistical clause (collisions no more frequent than chance among millions of explored positions) is measured by the COLL line, not proved: with 793 keys in GF(2)^64 collisions exist", rule="VAR: every single-component variant of sampled positions; COLL: millions of distinct positions hashed"),
  'C10': dict(files=['C10', 'C10NoPanic', 'C10Full'], rule="GAME programs: random/adversarial action sequences incl. illegal moves, offers by both colours, premature accepts, actions after the end"),
  'C11': dict(files=['C11', 'C11Full'], partial="the refinement to the whole-history specification (C11_can_declare_iff_spec, C11_refines) carries the explicit hypothesis NoCollision: no two different positions of the game share both 64-bit hash and legal-move list (the code identifies positions that way; irreversibility is proved, C11_irreversible_no_recurrence)", rule="GAME programs with long reversible histories, repetitions separated by other moves, rights lost midway, 98..102 reversible half-moves; can_declare_draw after every action"),
- 'C12': dict(files=['C12', 'TextTotal', 'Compose:C12_'], rule="every admissible spelling of every legal move of sampled positions (own SAN writer), must-reject spellings, mutated/random/non-ASCII text"),
+ 'C12': dict(files=['C12', 'TextTotal', 'Compose:C12_'] if not os.environ.get('NO_COMPOSE') else ['TextTotal'], rule="every admissible spelling of every legal move of sampled positions (own SAN writer), must-reject spellings, mutated/random/non-ASCII text"),
  'C13': dict(files=['C13'], exhaustive=True, rule="all 20480 move values and 64 squares rendered and parsed back; random, truncated, over-long and multi-byte text"),
  'C14': dict(files=['C14'], rule="GEN programs: mask sequences each drained, len/size_hint before every next, removals beforehand"),
  'C15': dict(files=['C15'], exhaustive=True, rule="every subset of the relevant mask of every (slider, square) x k random fillings, default and +bmi2 build"),
  'C16': dict(files=['C16'], exhaustive=True, rule="every exported accessor on its whole domain; blocker arguments: all subsets of the relevant squares x random noise"),
- 'C17': dict(files=['C17', 'Compose:C17_', 'ComposeSym'], rule="SYM: every position with its colour mirror (and file flip when no castling rights): moves, status, check/pin sets, every successor"),
+ 'C17': dict(files=['C17', 'Compose:C17_', 'ComposeSym'] if not os.environ.get('NO_COMPOSE') else ['C17'], rule="SYM: every position with its colour mirror (and file flip when no castling rights): moves, status, check/pin sets, every successor"),
  'C18': dict(files=['C18'], rule="NULL on positions in and out of check, with and without en-passant state"),
  'C19': dict(files=['C19'], rule="CACHE programs with colliding hashes on sizes 1..2^16 and invalid sizes"),
  'C20': dict(files=['C20'], exhaustive=True, rule="all 64 single squares; structured and random 64-bit values through every operator impl"),
